@@ -274,6 +274,40 @@ type c03World struct {
 	acctBroken bool
 	// between a bind update and the migration tick a pod is (by design) held by two groups: no used = assigned claim
 	transient bool
+	// known finding C03:dimension-added-under-assigned-pods: the key set of a group's max changed while pods assigned in
+	// the group held the touched dimension.  shiftDims = those dimensions, shiftGroups = the groups whose figures can
+	// carry the difference (the group and its ancestors, then and now), shiftAt = the groups whose key set changed.
+	shiftDims   map[int]bool
+	shiftGroups map[int]bool
+	shiftAt     map[int]bool
+}
+
+// shifted: the mask of an assigned pod moved (see shiftDims).
+func (w *c03World) shifted() bool { return len(w.shiftDims) > 0 }
+
+// shiftExplains: the reported figure differs from the from-scratch sum only in dimensions whose mask shifted, for a group
+// on the path of a group whose key set changed.
+func (w *c03World) shiftExplains(id int, got, want [c03D]int64) bool {
+	if !w.shifted() {
+		return false
+	}
+	on := w.shiftGroups[id]
+	for g := range w.shiftAt {
+		for _, a := range w.chain(g) {
+			if a == id {
+				on = true
+			}
+		}
+	}
+	if !on {
+		return false
+	}
+	for d := 0; d < c03D; d++ {
+		if got[d] != want[d] && !w.shiftDims[d] {
+			return false
+		}
+	}
+	return true
 }
 
 // below: q and every planned/registered group under it.
@@ -326,7 +360,7 @@ func c03LeqMax(a [c03D]int64, max c03RL) bool {
 // implementation's own report, with the is-parent flags the reset will see: what the groups of a subtree own
 // (SelfUsed of an is-parent group, Used otherwise) is non-negative and does not exceed what the subtree's top shows.
 func (w *c03World) checkTreeConsistent() {
-	if w.acctBroken {
+	if w.acctBroken || w.shifted() {
 		return
 	}
 	sums := w.gp.groupQuotaManager.GetQuotaSummaries(false)
@@ -381,7 +415,7 @@ func (w *c03World) checkTreeConsistent() {
 // the implementation's own report before a move: the moved group's own part is within its total, and its total is
 // contained in every old ancestor's.  (The clauses `fits` / `exLeaf` are what the generator itself guarantees.)
 func (w *c03World) checkReparentAssumption(x *c03Quota) {
-	if w.acctBroken {
+	if w.acctBroken || w.shifted() {
 		return
 	}
 	sums := w.gp.groupQuotaManager.GetQuotaSummaries(false)
@@ -667,6 +701,16 @@ func (w *c03World) metaEvent(r *vRand, pending *int) {
 
 // ---- quota-spec updates that change WHICH dimensions max / min declare ------------------------------------------
 
+func (w *c03World) shiftList() []int {
+	var out []int
+	for d := 0; d < c03D; d++ {
+		if w.shiftDims[d] {
+			out = append(out, d)
+		}
+	}
+	return out
+}
+
 // specShapes: what one spec update does to dimension d of one list of the declared object.
 //
 //	0 add the entry with value 0        1 add the entry with a non-zero value   2 remove the entry
@@ -810,9 +854,19 @@ func (w *c03World) applySpec(q *c03Quota, mx, mn c03RL, d int, pending *int) {
 	if maskShift {
 		// the dimension appears in / disappears from the mask of pods that are booked already: what they hold in it
 		// is never (was never) booked, and their roll-back subtracts with the new mask.  Outside the property's
-		// histories (wild stream only): model correspondence, the oracle's books are off from here on.
+		// histories (wild / exhaustive streams and one directed case): known finding
+		// C03:dimension-added-under-assigned-pods, reported by the used = assigned clause for the shifted dimensions on
+		// the group's path; the admission clauses (which rest on those figures) and the closed-loop clauses are off
+		// from here on, model correspondence goes on.
 		w.h.Tag("deviation:max-dimension-changed-under-assigned-pods")
-		w.acctBroken = true
+		if w.shiftDims == nil {
+			w.shiftDims, w.shiftGroups, w.shiftAt = map[int]bool{}, map[int]bool{}, map[int]bool{}
+		}
+		w.shiftDims[d] = true
+		w.shiftAt[q.id] = true
+		for _, a := range w.chain(q.id) {
+			w.shiftGroups[a] = true
+		}
 		w.closedLoop = false
 	}
 	if !fits {
@@ -940,10 +994,20 @@ func (w *c03World) dump() {
 		// currently assigned in its subtree - whatever happened before (every stream: roll-backs, deletions,
 		// re-parenting, tree resets, lowered max, unadmitted reserves)
 		if uo := w.usedO(id, false); u.v != uo && !w.acctBroken && !w.transient {
-			w.h.Fail("C03:used-ne-assigned", "group %d reports used %v, the pods assigned in its subtree request %v", id, u.v, uo)
+			if w.shiftExplains(id, u.v, uo) {
+				w.h.Fail("C03:dimension-added-under-assigned-pods", "the key set of a group's max changed under assigned pods (dims %v): group %d reports used %v, "+
+					"the pods assigned in its subtree request %v in the dimensions its group declares now", w.shiftList(), id, u.v, uo)
+			} else {
+				w.h.Fail("C03:used-ne-assigned", "group %d reports used %v, the pods assigned in its subtree request %v", id, u.v, uo)
+			}
 		}
 		if no := w.usedO(id, true); n.v != no && !w.acctBroken && !w.transient {
-			w.h.Fail("C03:used-ne-assigned:np", "group %d reports nonPreemptibleUsed %v, the non-preemptible pods assigned in its subtree request %v", id, n.v, no)
+			if w.shiftExplains(id, n.v, no) {
+				w.h.Fail("C03:dimension-added-under-assigned-pods", "the key set of a group's max changed under assigned pods (dims %v): group %d reports nonPreemptibleUsed %v, "+
+					"the non-preemptible pods assigned in its subtree request %v in the dimensions its group declares now", w.shiftList(), id, n.v, no)
+			} else {
+				w.h.Fail("C03:used-ne-assigned:np", "group %d reports nonPreemptibleUsed %v, the non-preemptible pods assigned in its subtree request %v", id, n.v, no)
+			}
 		}
 		if !w.closedLoop || (w.special[id] && w.cfgRT) {
 			// (default/system quota in runtime mode: used above max is the consequence of the known finding
@@ -1047,7 +1111,7 @@ func (w *c03World) attempt(p *c03Pod) bool {
 	w.h.Obs("v %d", code)
 	w.h.Tag(fmt.Sprintf("verdict:rt%d-cp%d:%d", vB(w.cfgRT), vB(w.cfgCP), code))
 
-	if w.acctBroken {
+	if w.acctBroken || w.shifted() {
 		return fwktype.Code(code) == fwktype.Success // correspondence only
 	}
 	// ---- oracle ----
@@ -2297,6 +2361,13 @@ func TestVerifC03Spec(t *testing.T) {
 			var lvl klog.Level
 			_ = lvl.Set("0")
 			for idx := base; idx < base+batch && idx < n; idx++ {
+				if idx < 4 {
+					// directed (one per switch combination): known finding C03:dimension-added-under-assigned-pods =
+					// word 9826 of the exhaustive spec stream: cycle of pod 1 (cpu 500m, gpu 1; gpu not declared, masked
+					// out), group 2's max gains gpu: 1, cycle of pod 3 (gpu 1), Unreserve pod 1
+					c03SpecExhaustiveCase(t, h, suit, idx, idx, 9826, 10, 4)
+					continue
+				}
 				c03SpecCase(t, h, suit, idx)
 			}
 		})
@@ -2307,7 +2378,8 @@ func TestVerifC03Spec(t *testing.T) {
 		"max or min - entry added with 0 / non-zero, removed, set to 0, raised from 0, identical object re-sent - followed by an attempt of a pod asking " +
 		"for that dimension; webhook-legal key sets (child within parent, min <= max); closed stream: updates under which the shown usage still fits and " +
 		"no assigned pod of the group holds the touched dimension; wild stream (1/4): any; switches = case index mod 4; non-trivial = a key-presence " +
-		"update followed by an admitted and a rejected attempt; distinct by op lines")
+		"update followed by an admitted and a rejected attempt; distinct by op lines; cases 0-3 are directed: the history of known finding " +
+		"C03:dimension-added-under-assigned-pods (max gains the gpu entry under an assigned gpu pod, next gpu pod, roll-back of the first), one per switch combination")
 }
 
 func c03SpecCase(t *testing.T, h *vHarness, suit *pluginTestSuit, idx int) {
